@@ -325,7 +325,34 @@ thread_local! {
     static FRONT_DONE: std::cell::Cell<bool> = const { std::cell::Cell::new(false) };
 }
 
-/// Front end only (lexer, parser, and — if parse was clean, as the CLI does — resolver).
+/// Front end only: lexer, parser and — if the parse was clean, as the CLI does — resolver.
+/// Returns acceptance plus *all* diagnostics (errors and warnings).
+pub fn run_front(ctx: &Ctx, src: &str) -> (Front, Vec<Diag>) {
+    ctx.reset();
+    let arena = &ctx.main;
+    let r = catch_unwind(AssertUnwindSafe(|| {
+        let lexer = Lexer::new(src, arena);
+        let mut parser = Parser::new(lexer, arena);
+        let (root, perr) = parser.parse_program();
+        if !perr.diagnostics.is_empty() {
+            let d = diags("syntax", perr, None);
+            return (Front::Rejected(d.clone()), d);
+        }
+        let mut resolver = Resolver::new(arena);
+        resolver.resolve(root);
+        let all = diags("semantic", &resolver.errors, None);
+        if resolver.errors.has_errors() {
+            (Front::Rejected(diags("semantic", &resolver.errors, Some(Severity::Error))), all)
+        } else {
+            (Front::Accepted, all)
+        }
+    }));
+    match r {
+        Ok(x) => x,
+        Err(_) => (Front::Panic(take_panic()), vec![]),
+    }
+}
+
 pub struct FrontObs {
     pub lex_spans: Vec<(usize, usize)>,
     pub diags: Vec<Diag>,
